@@ -799,3 +799,19 @@ package ugo
 //@ modifies *
 //@ property C06
 //@ stepproperty C12 C02 C03
+
+// ---------------------------------------------------------------------------
+// C05: the emitter. MakeInstruction reports an operand that does not fit its
+// width as an error (proved above); what emit / changeOperand do with that
+// error is checked here: they must not panic. (Known open finding: they do.)
+//@ func (*Compiler).emit
+//@ params c node opcode operands
+//@ requires c != nil && c.sourceMap != nil && c.trace == nil && int(opcode) < len(OpcodeOperands) && len(operands) < 1<<30
+//@ modifies *
+//@ property C05
+
+//@ func (*Compiler).changeOperand
+//@ params c opPos operand
+//@ requires c != nil && c.trace == nil && 0 <= opPos && opPos < len(c.instructions) && int(c.instructions[opPos]) < len(OpcodeOperands) && len(operand) < 1<<30
+//@ modifies *
+//@ property C05
